@@ -194,6 +194,17 @@ def look_through(a, prefix=""):
     not be inlined everywhere stays visible and is analysed like any other function."""
     if os.environ.get("HPBF_NO_LOOKTHROUGH"):
         return
+    # a behaviour-preserving normal form applied to every function: a value chosen by `let x = if ..` and used once in the next statement is
+    # sunk into the branches (so `let next = if c {a} else {b}; f(next)` reads like `if c { f(a) } else { f(b) }`)
+    import pm as _pm
+    a.normalised = 0
+    for f_ in a.functions():
+        if f_["node"].get("body") is not None and not is_test_item(f_):
+            before = _pm.SINK_COUNT[0]
+            nb = _pm.sink_let_if(f_["node"]["body"])
+            if _pm.SINK_COUNT[0] != before:
+                a.normalised += 1
+                f_["node"]["body"] = nb
     if not os.path.exists(VOCAB):
         raise CheckerError("lib/vocab.json missing (tools/gen_vocab.py)")
     with open(VOCAB) as fh:
